@@ -12,10 +12,13 @@ package main
 //       an "allsame" record judged by TLC (Meta.tla).
 
 import (
+	"bufio"
 	"bytes"
 	"crypto/sha1"
 	"encoding/json"
 	"fmt"
+	"io"
+	"runtime"
 	"sort"
 	"strings"
 	"sync"
@@ -95,6 +98,10 @@ func treeDigest(n ast.Node, src []byte) string {
 
 // runHistory replays a history; returns per pool document the list of observed outputs
 // (first = reference: Convert on a fresh instance) and the digests around every render.
+// c06GCAfterOp: replay attempts run a collection after every call (a collection may happen at
+// any time; pools hand their contents on at collections)
+var c06GCAfterOp bool
+
 func runHistory(cs c06Case) (outs map[int][]string, digests [][]string, err error) {
 	defer func() {
 		if r := recover(); r != nil {
@@ -112,6 +119,9 @@ func runHistory(cs c06Case) (outs map[int][]string, digests [][]string, err erro
 	// the caller hands the SAME buffer to every call of the history (with spare capacity
 	// behind it, as a buffer read from a file has); the reference run gets a private copy
 	bufs := map[int][]byte{}
+	var callerBuf bytes.Buffer
+	callerW := bufio.NewWriterSize(&callerBuf, 64)
+	opIndex := 0
 	for _, op := range cs.Hist {
 		if _, ok := bufs[op.Doc]; !ok {
 			b := make([]byte, len(cs.Pool[op.Doc]), len(cs.Pool[op.Doc])+64)
@@ -130,16 +140,27 @@ func runHistory(cs c06Case) (outs map[int][]string, digests [][]string, err erro
 		if op.Fresh {
 			md = cs.Config.build()
 		}
-		var buf bytes.Buffer
+		// destinations: every second call of a history writes through ONE caller-owned
+		// *bufio.Writer (a util.BufWriter, used by the renderer as it is) over one caller-owned
+		// buffer, the others into a buffer of their own; a destination receives exactly the output
+		// of the calls it was handed to
+		var own bytes.Buffer
+		var buf io.Writer = &own
+		before := callerBuf.Len()
+		useCaller := opIndex%2 == 1
+		opIndex++
+		if useCaller {
+			buf = callerW
+		}
 		switch op.Op {
 		case "convert":
-			if e := md.Convert(src, &buf); e != nil {
+			if e := md.Convert(src, buf); e != nil {
 				return nil, nil, e
 			}
 		case "parse+render":
 			tree := md.Parser().Parse(text.NewReader(src))
 			d0 := treeDigest(tree, src)
-			if e := md.Renderer().Render(&buf, src, tree); e != nil {
+			if e := md.Renderer().Render(buf, src, tree); e != nil {
 				return nil, nil, e
 			}
 			digests = append(digests, []string{d0, treeDigest(tree, src)})
@@ -150,19 +171,33 @@ func runHistory(cs c06Case) (outs map[int][]string, digests [][]string, err erro
 			f.Unsafe, f.XHTML, f.HardWraps, f.AutoID, f.Attr = !f.Unsafe, !f.XHTML, !f.HardWraps, !f.AutoID, !f.Attr
 			var sink bytes.Buffer
 			_ = f.build().Convert(src, &sink)
+			opIndex-- // no destination of the history was used
 			continue
 		case "rerender":
 			k := kept[op.Doc]
 			if k == nil {
+				opIndex--
 				continue
 			}
 			d0 := treeDigest(k.tree, k.src)
-			if e := k.md.Renderer().Render(&buf, k.src, k.tree); e != nil {
+			if e := k.md.Renderer().Render(buf, k.src, k.tree); e != nil {
 				return nil, nil, e
 			}
 			digests = append(digests, []string{d0, treeDigest(k.tree, k.src)})
 		}
-		outs[op.Doc] = append(outs[op.Doc], buf.String())
+		if c06GCAfterOp {
+			runtime.GC()
+		}
+		if useCaller {
+			_ = callerW.Flush()
+			outs[op.Doc] = append(outs[op.Doc], string(callerBuf.Bytes()[before:]))
+		} else {
+			if callerBuf.Len() != before {
+				outs[op.Doc] = append(outs[op.Doc], "(bytes of this call arrived in a destination it was not given) "+string(callerBuf.Bytes()[before:]))
+				continue
+			}
+			outs[op.Doc] = append(outs[op.Doc], own.String())
+		}
 	}
 	return outs, digests, nil
 }
@@ -203,11 +238,29 @@ func replayC06(c *Ctx, raw json.RawMessage) (bool, string) {
 	if err := json.Unmarshal(raw, &cs); err != nil {
 		return false, err.Error()
 	}
-	recs, descs := c06Records(cs)
-	for i, r := range recs {
-		if !judgeLawOne(r) {
-			return true, fmt.Sprintf("config %s, history %v: %s", cs.Config, cs.Hist, descs[i])
+	base := cs.Hist
+	defer func() { c06GCAfterOp = false }()
+	for attempt := 0; attempt < 6; attempt++ {
+		if attempt > 0 {
+			// the history twice in a row is a history too; destinations and instance are reused,
+			// so that what a call leaves behind in the process meets its own caller again
+			cs.Hist = append(append(append([]c06Op{}, base...), base...), base...)
+			c06GCAfterOp = attempt%2 == 1
 		}
+		recs, descs := c06Records(cs)
+		for i, r := range recs {
+			if !judgeLawOne(r) {
+				note := ""
+				if attempt > 0 {
+					note = " (seen after garbage collections: the outcome depends on process-wide state such as a pool)"
+				}
+				return true, fmt.Sprintf("config %s, history %v: %s%s", cs.Config, cs.Hist, descs[i], note)
+			}
+		}
+		// process-wide state that a history may depend on (pools are emptied by the collector) is
+		// not part of a history: try again after two collections, as may happen at any time
+		runtime.GC()
+		runtime.GC()
 	}
 	return false, "every call gave the fresh-instance output"
 }
